@@ -374,6 +374,15 @@ class Prover:
             while d[0] == "unop" and d[1] == "Not":
                 truth = not truth
                 d = d[2]
+            if d[0] == "discr" and util.is_call(d[1]) and "TryFrom<" in d[1][1] and d[1][1].endswith("::try_from") and " for " in d[1][1] and v[0] == "is" and v[1] == 0:
+                # uN::try_from(x) is Ok exactly when x fits uN
+                tgt = d[1][1].split(" for ")[-1].split(">")[0]
+                tr_ = TYPE_RANGE.get(tgt)
+                if tr_ is not None:
+                    x_ = util.numnorm(d[1][2][0])
+                    res.append(("Le", x_, ("int", tr_[1], "usize")))
+                    res.append(("Ge", x_, ("int", tr_[0], "usize")))
+                continue
             if d[0] == "discr" and util.is_call(d[1]) and d[1][1].endswith("<impl [T]>::get") and len(d[1][2]) == 2 and strip(d[1][2][1])[0] != "agg" and v[0] == "is" and v[1] in (0, 1):
                 # s.get(i) is Some exactly when i < s.len()
                 res.append(("Lt" if v[1] == 1 else "Ge", util.numnorm(d[1][2][1]), ("len", util.numnorm(d[1][2][0]))))
@@ -428,6 +437,14 @@ class Prover:
                 elif b == t:
                     ra = self._rng0(a, bb, depth + 1) if a != t else TOP
                     r = _refine(r, _flip(op), ra)
+            # a fact about `t as uN` is a fact about t once t is known to fit uN
+            for op, a, b in self.bool_facts(bb):
+                for x, y, o in ((a, b, op), (b, a, _flip(op))):
+                    if x[0] == "cast" and x[1] == "IntToInt" and x[2] == t and x[3] in TYPE_RANGE:
+                        tr_ = TYPE_RANGE[x[3]]
+                        if r[0] >= tr_[0] and r[1] <= tr_[1]:
+                            ry = self._rng0(y, bb, depth + 1)
+                            r = _refine(r, o, ry)
         return r
 
     def _rng0(self, t, bb, depth):
